@@ -1,28 +1,27 @@
-(* C16 — matched-endpoint bookkeeping of one local DataWriter (side = Wr) or DataReader
-   (side = Rd) as driven by discovery.  Definitions only.
+(* C16 — matched-endpoint bookkeeping of one local DataWriter or DataReader as driven by
+   discovery (after the fix commits 63bcd2c, 34a7046, 6603216, 9eb0989 both sides behave alike).
+   Definitions only.
 
    Sources (dds/src/dcps/dcps_domain_participant):
    - discovery_methods.rs  process_discovered_readers / process_discovered_writers
        (every local endpoint x every entry of discovered_reader_list / discovered_writer_list with
-        the topic of the endpoint; `matched_*_list.contains(data)` => skip; compatible => replace-or-
-        push, current_count = len, current_count_change += 1, total_count += 1, total_count_change
-        += 1, transport add_matched_reader/add_matched_writer (replace-or-push by guid, locators =
-        the announced ones or the default locators of the participant if it is in
-        discovered_participant_list, else none); incompatible => only the incompatible-QoS
-        bookkeeping, the matched list is not touched)
+        the topic of the endpoint; `matched_*_list.contains(data)` => skip; compatible => replace
+        (QoS update: current_count = len only) or push (new match: current_count = len,
+        current_count_change, total_count, total_count_change += 1), then transport
+        add_matched_reader/add_matched_writer (replace-or-push by guid, locators = the announced
+        ones or the default locators of the participant if it is in discovered_participant_list,
+        else none); incompatible => a matched endpoint is unmatched (remove_matched_subscription/publication, transport
+        delete_matched_reader/writer), then the incompatible-QoS bookkeeping (outside this model))
    - discovery_methods.rs  remove_discovered_reader / remove_discovered_writer
-       (remove_matched_subscription / remove_matched_publication; the RTPS proxy stays)
-   - discovery_methods.rs  remove_discovered_participant
-       (deletes the RTPS proxies of the matched endpoints with that prefix; writer: prunes
-        matched_subscription_list; reader: keeps matched_publication_list; no status update;
-        discovered_reader_list / discovered_writer_list keep the endpoints of that participant)
+       (remove_matched_subscription / remove_matched_publication + transport delete_matched_reader/writer)
+   - discovery_methods.rs  remove_discovered_participant (see remove_part below)
    - participant_entity.rs add_discovered_reader/writer (replace by key or push),
        remove_discovered_reader/writer (retain)
    - user_defined_data_writer.rs remove_matched_subscription, user_defined_data_reader.rs
        add_matched_publication / remove_matched_publication / get_subscription_matched_status,
        discovery_methods.rs PublicationMatchedStatus::get
-   `fx = true` is the behaviour after the patch proposed in proposed_fixes/C16-*.diff.
-   The QoS / topic / partition / type test of the code is the abstract predicate `compat`. *)
+   The QoS / topic / partition / type test of the code is the abstract predicate `compat`.
+   No listener is installed (a listener call reads the status and resets the change fields). *)
 From DustDDS Require Export Base.Machine.
 Open Scope Z_scope.
 
@@ -97,18 +96,16 @@ Definition status : Type := (Z * Z * Z * Z)%type.   (* total, total_change, curr
 
 
 Section Model.
-  Variable sd : side.
-  Variable fx : bool.
   Variable compat : ep -> bool.
 
   Definition with_match (s : st) (m : list ep) (px : list proxy) (dt dtc dcc : Z) : st :=
     mkSt (parts s) (disc s) m px (total s + dt) (total_ch s + dtc) (zlen m) (cur_ch s + dcc).
 
-  (* remove_matched_subscription / remove_matched_publication (+ proxy deletion when fixed) *)
+  (* remove_matched_subscription / remove_matched_publication followed by
+     transport delete_matched_reader / delete_matched_writer *)
   Definition unmatch (k : key) (s : st) : st :=
     if has_key k (matched s)
-    then with_match s (remove_key k (matched s))
-                    (if fx then del_proxy k (prox s) else prox s) 0 0 (-1)
+    then with_match s (remove_key k (matched s)) (del_proxy k (prox s)) 0 0 (-1)
     else s.
 
   (* body of the loop of process_discovered_readers/writers for one discovered entry *)
@@ -116,11 +113,10 @@ Section Model.
     if has_ep d (matched s) then s
     else if compat d then
       let px := upsert_proxy (mkProxy (ekey d) (existsb (Z.eqb (e_p d)) (parts s))) (prox s) in
-      if fx && has_key (ekey d) (matched s)
-      then with_match s (upsert d (matched s)) px 0 0 0
-      else with_match s (upsert d (matched s)) px 1 1 1
-    else if fx then unmatch (ekey d) s
-    else s.
+      if has_key (ekey d) (matched s)
+      then with_match s (upsert d (matched s)) px 0 0 0       (* QoS update of a matched endpoint *)
+      else with_match s (upsert d (matched s)) px 1 1 1       (* a new match *)
+    else unmatch (ekey d) s.                                  (* (became) incompatible *)
 
   Definition process (s : st) : st := fold_left process_one (disc s) s.
 
@@ -129,19 +125,16 @@ Section Model.
   Definition set_parts (s : st) (l : list Z) : st :=
     mkSt l (disc s) (matched s) (prox s) (total s) (total_ch s) (cur s) (cur_ch s).
 
-  (* remove_discovered_participant (discovered_participant_list.retain, endpoints) *)
+  (* remove_discovered_participant: discovered_participant_list.retain; every matched endpoint with
+     that prefix goes through remove_matched_subscription/publication (current_count = len,
+     current_count_change -= 1 each) and loses its RTPS proxy; the endpoints of the participant
+     leave discovered_reader_list / discovered_writer_list *)
   Definition remove_part (p : Z) (s : st) : st :=
     let s1 := set_parts s (filter (fun q => negb (q =? p)) (parts s)) in
-    if fx then
-      let m := retain_not_prefix p (matched s1) in
-      mkSt (parts s1) (retain_not_prefix p (disc s1)) m
-           (del_proxies_of p (matched s1) (prox s1))
-           (total s1) (total_ch s1) (zlen m) (cur_ch s1 - (zlen (matched s1) - zlen m))
-    else
-      mkSt (parts s1) (disc s1)
-           (match sd with Wr => retain_not_prefix p (matched s1) | Rd => matched s1 end)
-           (del_proxies_of p (matched s1) (prox s1))
-           (total s1) (total_ch s1) (cur s1) (cur_ch s1).
+    let m := retain_not_prefix p (matched s1) in
+    mkSt (parts s1) (retain_not_prefix p (disc s1)) m
+         (del_proxies_of p (matched s1) (prox s1))
+         (total s1) (total_ch s1) (zlen m) (cur_ch s1 - (zlen (matched s1) - zlen m)).
 
   Definition read (s : st) : st * status :=
     (mkSt (parts s) (disc s) (matched s) (prox s) (total s) 0 (cur s) 0,
@@ -199,28 +192,5 @@ Section Model.
                 (i2, match o with Some x => x :: os | None => os end)
     end.
 
-  (* ------------------------------------------------------------ known defect classes,
-     decided on the specification state in front of the action:
-     1 a compatible QoS update of a matched endpoint (counted as a new match)
-     2 an update of a matched endpoint to incompatible QoS (stays matched)
-     3 a participant with matched endpoints departs / is ignored / expires (no status update;
-       writer: endpoints re-matched from the stale discovered list)
-     4 a matched endpoint is deleted (its RTPS proxy stays) — proxies only *)
-  Definition class_of (i : ideal) (a : act) : N :=
-    match a with
-    | ADisc d => if kmem (ekey d) (i_keys i) then (if compat d then 1%N else 2%N) else 0%N
-    | APartGone p | AStale p => if existsb (fun k => fst k =? p) (i_keys i) then 3%N else 0%N
-    | AGone k => if kmem k (i_keys i) then 4%N else 0%N
-    | _ => 0%N
-    end.
-  (* first class met by a history (0 = none); `upto4 = false` ignores class 4 *)
-  Fixpoint first_class (upto4 : bool) (i : ideal) (l : list act) : N :=
-    match l with
-    | [] => 0%N
-    | a :: t =>
-        let c := class_of i a in
-        if (negb (N.eqb c 0)) && (upto4 || negb (N.eqb c 4)) then c
-        else first_class upto4 (fst (istep i a)) t
-    end.
 End Model.
 
